@@ -467,6 +467,44 @@ pub fn run(ctx: &mut Ctx, replay: Option<&str>) {
         ctx.count(&format!("base.disclosures.{}", match h.pres.disclosures.len() { 0 => "0", 1 => "1", _ => "2+" }));
         attacks.extend(list);
     }
+    // honest key-bound presentations made by a holder instance that has presented before (other selections, with and without key
+    // binding, a failing call): the last presentation of each history must be accepted like any other
+    {
+        let cfg = FlowCfg { tree: TreeCfg { max_depth: 3, max_fanout: 4, path_safe_names: false, plain: true }, allow_custom: true, allow_kb: true, sel_density: 3 };
+        for i in 0..ctx.tier.pick(16, 120) {
+            let mut r = ctx.rng.fork(77_000 + i as u64);
+            let mut f = gen_flow(&mut r, &cfg);
+            let kb = gen_kb(&mut r);
+            f.issue.holder = Some(kb.key);
+            f.kb = Some(kb.clone());
+            f.issue.fmt = if i % 2 == 0 { Fmt::Compact } else { Fmt::Json };
+            let issued = match issue(&f.issue).out.ok() {
+                Some(s) => s.clone(),
+                None => continue,
+            };
+            ctx.impl_calls += 1;
+            let own = f.present_args();
+            let other_sel = |r: &mut Rng| gen_selection(r, &f.issue.claims, 3).as_object().cloned().unwrap_or_default();
+            let kb_with = |sel: serde_json::Map<String, Value>, nonce: &str| PresentArgs { sel, nonce: Some(nonce.to_string()), aud: Some("https://earlier-verifier.example".into()), key: Some(kb.key), alg: kb.alg.clone() };
+            let x = other_sel(&mut r);
+            let history: Vec<PresentArgs> = match i % 6 {
+                0 => vec![kb_with(x, "n-earlier"), PresentArgs::plain(own.sel.clone()), own.clone()],
+                1 => vec![PresentArgs::plain(own.sel.clone()), own.clone()],
+                2 => vec![own.clone(), own.clone()],
+                3 => vec![kb_with(x, "n-earlier"), PresentArgs { sel: own.sel.clone(), nonce: Some("n".into()), aud: None, key: None, alg: None }, own.clone()],
+                4 => vec![kb_with(own.sel.clone(), "n-earlier"), PresentArgs::plain(x), kb_with(own.sel.clone(), "n-middle"), own.clone()],
+                _ => vec![kb_with(x.clone(), "n-earlier"), kb_with(reorder_members(&mut r, &Value::Object(x), true).as_object().cloned().unwrap_or_default(), "n-earlier-2"), PresentArgs::plain(Default::default()), own.clone()],
+            };
+            let h = holder_session(&issued, f.issue.fmt, &history);
+            ctx.impl_calls += history.len();
+            if let Some(Outcome::Ok(p)) = h.calls.last().map(|c| c.out.clone()) {
+                attacks.push(Attack { name: format!("control-presentation-from-a-holder-with-history: pattern {}", i % 6), args: f.verify_args(&p), expect: Expect::Accept,
+                                      origin: json!({"flow": f.json(), "holder_history": history.iter().map(|c| c.json()).collect::<Vec<_>>()}), nontrivial: true });
+            } else {
+                ctx.count("holder_with_history.no_presentation(C06/C11 judge the holder)");
+            }
+        }
+    }
     attacks.extend(spelling_matrix(ctx));
     long_presentations(ctx);
     for chunk in attacks.chunks(4000) {
